@@ -18,6 +18,7 @@ import itertools
 import logging
 import re
 import struct
+import time
 import zlib
 
 import common
@@ -38,6 +39,49 @@ GD_AT_END = images.GD_AT_END
 FORMATS = list(images.FORMATS)
 ZERO_UNTIL = ('qcow2', 'vhd', 'vhdx', 'vmdk', 'vdi', 'iso')   # formats with the "0 while unknown" clause
 WORKERS = 6
+
+
+def ambient(ctx):
+    """name of the ambient configuration this run is a child of (None in the main run)"""
+    return getattr(ctx, 'ambient', None)
+
+
+def scale(ctx, value, frac=0.25, least=1):
+    """budgets of the ambient children: about a quarter of the main run's"""
+    return value if not ambient(ctx) else max(least, int(value * frac))
+
+
+def thin(ctx, items, key, frac=0.25, keep=None):
+    """in an ambient child keep about a quarter of the items, stratified by `key(item)` (at least one of every
+    stratum, so every generator family and every format stays represented) and everything `keep` selects"""
+    if not ambient(ctx):
+        return items
+    groups = {}
+    for it in items:
+        groups.setdefault(key(it), []).append(it)
+    out = []
+    for k in groups:
+        g = groups[k]
+        must = [i for i in g if keep and keep(i)]
+        rest = [i for i in g if not (keep and keep(i))]
+        n = max(0 if must else 1, int(len(rest) * frac + 0.5))
+        out += must + ctx.rng.sample(rest, min(n, len(rest)))
+    return out
+
+
+class Clock:
+    """wall-clock bound on what a run does once it has a failing input (shrinking, confirming, looking for more)"""
+
+    def __init__(self, ctx, after_failure=60.0):
+        self.limit = after_failure if ambient(ctx) else 3 * after_failure
+        self.t_fail = None
+
+    def failed(self):
+        if self.t_fail is None:
+            self.t_fail = time.time()
+
+    def expired(self):
+        return self.t_fail is not None and time.time() - self.t_fail > self.limit
 
 
 def bound(fmt):
@@ -1062,6 +1106,39 @@ class Feeder:
 
 
 _CTOR = {}
+_SUBCLASS = {}
+
+
+def insp_class(fmt, kind=None):
+    """the public inspector class of `fmt`, or a subclass of it that a user of the library may write:
+    'trivial' (`class X(Base): pass`) or 'override' (adds a class constant and overrides one method by calling
+    the inherited one).  A subclass that changes nothing must behave exactly like its base class."""
+    base = insp_impl.fi().ALL_FORMATS[fmt]
+    if not kind:
+        return base
+    key = (base, kind)
+    if key not in _SUBCLASS:
+        if kind == 'trivial':
+            _SUBCLASS[key] = type('Sub' + base.__name__, (base,), {})
+        elif kind == 'override':
+            def _initialize(self):
+                return super(_SUBCLASS[key], self)._initialize()
+
+            def safety_check(self):
+                return super(_SUBCLASS[key], self).safety_check()
+            _SUBCLASS[key] = type('Sub2' + base.__name__, (base,), {'SITE_LABEL': 'x', '_initialize': _initialize,
+                                                                   'safety_check': safety_check})
+        else:
+            raise ValueError(kind)
+    return _SUBCLASS[key]
+
+
+def make_insp(fmt, ctor=None):
+    """construct the inspector: `ctor` are the constructor keyword arguments; the pseudo argument
+    '__class__' selects a user subclass (see insp_class)"""
+    ctor = dict(ctor or {})
+    kind = ctor.pop('__class__', None)
+    return insp_class(fmt, kind)(**ctor)
 
 
 def ctor_variants(fmt):
@@ -1076,6 +1153,7 @@ def ctor_variants(fmt):
         out = [{}]
         for k in range(1, 1 << len(names)):
             out.append({n: (not defaults[n]) for i, n in enumerate(names) if k >> i & 1})
+        out += [{'__class__': 'trivial'}, {'__class__': 'override'}]
         _CTOR[fmt] = out
     return _CTOR[fmt]
 
@@ -1226,7 +1304,7 @@ def _companion(fmt, companion, ctor=None):
         return None
     F = insp_impl.fi()
     data, sizes, mode = companion
-    return Companion(lambda: F.ALL_FORMATS[fmt](**(ctor or {})), data, sizes, mode)
+    return Companion(lambda: make_insp(fmt, ctor), data, sizes, mode)
 
 
 def run_insp_x(fmt, data, sizes, trace=False, query=None, feed='bytes', ctor=None, companion=None, after_error='stop'):
@@ -1236,7 +1314,7 @@ def run_insp_x(fmt, data, sizes, trace=False, query=None, feed='bytes', ctor=Non
     comp = _companion(fmt, companion, ctor)
     if comp:
         comp.start()
-    i = F.ALL_FORMATS[fmt](**(ctor or {}))
+    i = make_insp(fmt, ctor)
     fd = Feeder(feed)
     raised, tr, pos = None, [], 0
     for n in sizes:
@@ -1399,7 +1477,7 @@ def impl_run(fmt, data, sizes, query=None, every_chunk=None, feed='bytes', ctor=
     comp = _companion(fmt, companion, ctor)
     if comp:
         comp.start()
-    i = F.ALL_FORMATS[fmt](**(ctor or {}))
+    i = make_insp(fmt, ctor)
     fd = Feeder(feed)
     raised, pos = None, 0
     for n in sizes:
@@ -1553,7 +1631,7 @@ def inspx_line(sp, cuts, trace):
 def sparse_render(sp, cuts, trace=False, query=None, ctor=None):
     """the implementation on the sparse stream, rendered like insp_impl.run_insp (trace, final state, verdict)"""
     F = insp_impl.fi()
-    i = F.ALL_FORMATS[sp.fmt](**(ctor or {}))
+    i = make_insp(sp.fmt, ctor)
     raised, tr = None, []
     for chunk in sp.chunks(cuts):
         try:
@@ -1654,7 +1732,7 @@ def sparse_of_case(c):
 def sparse_run(sp, cuts, query=None, ctor=None):
     """present the sparse stream to a fresh inspector; (verdict string, inspector)"""
     F = insp_impl.fi()
-    i = F.ALL_FORMATS[sp.fmt](**(ctor or {}))
+    i = make_insp(sp.fmt, ctor)
     raised = None
     for chunk in sp.chunks(cuts):
         try:
@@ -1734,7 +1812,7 @@ WRAPPER_DRIVES = ('read', 'read-kw', 'read-rest', 'close-twice', 'for', 'next', 
                   'iter-twice', 'mixed', 'deepcopy')
 
 
-def drive_wrapper(data, sizes, drive, allowed=None, expected=None, k=1, form=None):
+def drive_wrapper(data, sizes, drive, allowed=None, expected=None, k=1, form=None, subclass=None):
     """present the chunks through an InspectWrapper using one consumption protocol and return
     'end<TAB>format/formats<TAB>per-inspector verdicts' (the tail of insp_impl.run_wrap's rendering).
     `k` is the chunk index at which the interrupting protocols interrupt."""
@@ -1742,7 +1820,19 @@ def drive_wrapper(data, sizes, drive, allowed=None, expected=None, k=1, form=Non
     F = insp_impl.fi()
     chunks = insp_impl.cut(data, sizes)
     file_like = drive in ('read', 'read-kw', 'read-rest', 'close-twice', 'deepcopy')
-    w = make_wrapper(insp_impl.Src(data) if file_like else iter(chunks), allowed, expected, form=form)
+    saved = None
+    if subclass:
+        # the wrapper builds its inspectors from the public table ALL_FORMATS: a deployment that registers its own
+        # subclasses there (this case is explicitly about that) must see the base classes' behaviour
+        saved = dict(F.ALL_FORMATS)
+        for name in list(F.ALL_FORMATS):
+            F.ALL_FORMATS[name] = insp_class(name, subclass)
+    try:
+        w = make_wrapper(insp_impl.Src(data) if file_like else iter(chunks), allowed, expected, form=form)
+    finally:
+        if saved is not None:
+            F.ALL_FORMATS.clear()
+            F.ALL_FORMATS.update(saved)
     end = 'done'
     ws = [w]
     try:
